@@ -64,6 +64,7 @@ TRANSPARENT_REPO_FUNCS = {
     "aspire.utils:to_numpy": "np.asarray(to_device(x,'cpu')), value preserving",
     "aspire.utils:safe_to_device": "device move or identity",
     "aspire.utils:copy_array": "copy, value preserving",
+    "aspire.samples:BaseSamples.array_to_namespace": "asarray + safe_to_device of its argument (checked by rule C15.a2n)",
 }
 TRANSPARENT_METHODS = {
     "flatten": "shape only", "detach": "drops autograd graph, value preserving",
